@@ -67,9 +67,8 @@ theorem handle_eq_spec_vroot_partial (app : App) (rq : Req) (hc : Coherent app.r
 
 private def ex0 : Exc := ⟨0, [0], false, none⟩
 private def w0 : ExcView.World :=
-  { sec := ⟨true, false⟩, notFound := ⟨45, [45, 0], true, some 404⟩, mismatch := ⟨48, [48, 45, 0], true, some 404⟩,
-    forbidden := ⟨44, [44, 0], false, some 403⟩, excNotFound := ⟨45, [45, 0], true, some 404⟩,
-    excMismatch := ⟨48, [48, 45, 0], true, some 404⟩, excForbidden := ⟨44, [44, 0], false, some 403⟩, viewResponse := 0 }
+  mkWorld ⟨true, false⟩ ⟨45, [45, 0], true, some 404⟩ ⟨48, [48, 45, 0], true, some 404⟩ ⟨44, [44, 0], false, some 403⟩
+    ⟨45, [45, 0], true, some 404⟩ ⟨48, [48, 45, 0], true, some 404⟩ ⟨44, [44, 0], false, some 403⟩
 private def base0 : Request :=
   { method := "GET", getParams := [], postParams := [], environ := [], pathInfo := "/", matchdict := none,
     authenticated := false, customTrue := [], reTable := [], accQ := [], lineage := [], physPath := none, permitted := true,
@@ -98,8 +97,8 @@ theorem nothing_registered_is_http_notfound_partial (app : App) (rq : Req) (key 
 private def ex1 : Exc := ⟨100, [100, 40, 0], false, none⟩
 private def appLeak : App :=
   { appEmpty with
-    views := [⟨⟨0, 0, "", [], none, .unset, false, false, 1, .raise ex1, false⟩, 9⟩,
-              ⟨⟨0, 100, "", [], none, .named, true, true, 2, .respond, false⟩, 1⟩] }
+    views := [⟨mkStmt 0 0 "" [] .unset false false 1 (.raise ex1) , 9⟩,
+              ⟨mkStmt 0 100 "" [] .named true true 2 (.respond) , 1⟩] }
 
 /-- **F-X01a** (= F-C14a = F-C05a through the composed model): the most specific exception view for the raised exception is
 protected and the policy refuses — neither its response nor the original exception leaves the router but a new
@@ -123,7 +122,7 @@ theorem exception_rendered_by_most_specific_view_partial (app : App) (r0 : Reque
     (hf : (candidates app.regs clsExc (ExcView.excRequest r0 e comb)).find? (·.holds (ExcView.excRequest r0 e comb)) = some v)
     (hok : v.secured = false ∨ app.permits (.exc e.sro) v.tag = true) (hb : bodyOf app.stmts v.tag = .respond) :
     specRender app r0 comb e = .response (.view v.tag) ∧
-    specSeen app r0 comb e = some ⟨e.id, some e.id, some e.id, none⟩ := by
+    specSeen app r0 comb e = some (ExcView.seenOf e (ExcView.kindOf app.stmts v.tag)) := by
   have hs : (v.secured && !app.permits (.exc e.sro) v.tag) = false := by
     rcases hok with h | h <;> simp [h]
   simp only [specRender, specSeen, specView, hf, hs, Bool.false_eq_true, if_false, hb, and_self]
@@ -398,11 +397,11 @@ private def probeApp : App :=
               ⟨.mk true [("b".toList, .mk true [])], [([], [10, 0]), (["b".toList], [11, 0])], none⟩,
               ⟨.mk true [], [], some valueError⟩],
     defaultRoot := 0,
-    views := [⟨⟨0, 11, "v", [], none, .unset, false, false, 1, .respond, false⟩, 9⟩,
-              ⟨⟨1, 0, "", [], none, .unset, false, false, 2, .respond, false⟩, 9⟩,
-              ⟨⟨3, 52, "", [], none, .noPermissionRequired, true, true, 3, .respond, false⟩, 9⟩,
-              ⟨⟨0, 45, "", [], none, .noPermissionRequired, true, true, 4, .respond, false⟩, 9⟩,
-              ⟨⟨0, 49, "", [], none, .noPermissionRequired, true, true, 5, .respond, false⟩, 9⟩],
+    views := [⟨mkStmt 0 11 "v" [] .unset false false 1 (.respond) , 9⟩,
+              ⟨mkStmt 1 0 "" [] .unset false false 2 (.respond) , 9⟩,
+              ⟨mkStmt 3 52 "" [] .noPermissionRequired true true 3 (.respond) , 9⟩,
+              ⟨mkStmt 0 45 "" [] .noPermissionRequired true true 4 (.respond) , 9⟩,
+              ⟨mkStmt 0 49 "" [] .noPermissionRequired true true 5 (.respond) , 9⟩],
     world := { w0 with sec := ⟨false, false⟩ },
     urlDecode := ⟨49, [49, 50, 51, 52, 40, 0], false, none⟩, unicodeDecode := ⟨50, [50, 51, 52, 40, 0], false, none⟩,
     keyError := ⟨46, [46, 47, 40, 0], false, none⟩, allowed := [] }
